@@ -12,7 +12,7 @@ import numpy as np
 from common import f2b, b2f, unhexs, run_main
 
 LEVEL = 'proof'
-MODULES = ['C19']
+MODULES = ['C19', 'C19b', 'C19c']
 
 
 def gen_values(rng, n):
@@ -308,6 +308,14 @@ def run(ck):
             bads = c19report.report_bad(txt, m)
         except Exception as e:
             bads = [('structure', 'the report cannot be read back: %s: %s' % (type(e).__name__, e))]
+        # row structure of the real text vs the Lean report model (C19c)
+        try:
+            st = c19report.structure_tie(d, txt, m)
+        except Exception as e:
+            st = 'structure tie raised %s: %s' % (type(e).__name__, e)
+        ck.count('structure_ties')
+        if st:
+            disagreements.append(dict(kind='report-structure', argv=argv, why=st))
         for site, msg in bads:
             sites[site] += 1
             if site == 'vm-table-precision':
@@ -349,6 +357,8 @@ def run(ck):
     if disagreements or ck.broken:
         found = False
         for dg in disagreements:
+            if dg.get('kind') != 'format_float':
+                continue
             bad = prop_value(dg['value'], dg['use_e'], dg['impl'])
             if bad:
                 ck.violation(dict(kind='format_float', value=dg['value'], use_e=dg['use_e'], observed=bad,
